@@ -108,6 +108,7 @@ func CheckTruth(cp *ref.Capture, vs []*VStream) []Finding {
 }
 
 type outcome struct {
+	keyNote  string // appended to the case key: facts about the rendered capture that the case text does not show
 	findings []Finding
 	canon    string
 	states   []string
@@ -126,6 +127,9 @@ func RunImportCase(ic ImportCase) (out outcome) {
 	}
 	defer env.Close()
 	defer func() { out.imports = env.Imports }()
+	if n := cp.SplitDatagrams(); n > 0 {
+		out.keyNote = fmt.Sprintf(" fragments-of-one-datagram-in-two-files=%d", n)
+	}
 	if err := env.StageCapture(cp, ""); err != nil {
 		mc.Fatal("writing captures: %v", err)
 	}
@@ -280,7 +284,8 @@ func EnumCases(tier string) (cases []ImportCase, rule string) {
 	rule = fmt.Sprintf("every conversation set of the menu (%d sets: TCP v4/v6 client-first/server-first/open/FIN/RST/with empty ACKs/sequence wrap, UDP v4/v6, "+
 		"two TCP flows, TCP+UDP on equal endpoints, colliding port pairs, 4-tuple reuse after 6 idle minutes and 90 s after a clean close, 4 minute idle periods inside a conversation) x renderings with bounded deviations "+
 		"(split at every position, one-byte overlap, swap of adjacent packets except SYN/SYN-ACK/RST, retransmission full at every later position and head/tail half, "+
-		"UDP datagram duplicate, equal timestamps of neighbours; de-duplicated by resulting packet sequence). ", nsets)
+		"UDP datagram duplicate, equal timestamps of neighbours, an IPv4 packet with payload travelling as two IP fragments cut at every multiple of 8 bytes of the IP payload - inside the TCP header too - in order and last fragment first; de-duplicated by resulting packet sequence); "+
+		"three sets in which EVERY datagram / data segment travels as two fragments, so that the deviations reorder and interleave fragments of several datagrams and the cuts separate the fragments of one datagram. ", nsets)
 	if thorough {
 		rule += "thorough: <=1 deviation x every permitted interleaving x {one file; cut into two files at every position, imported one by one in order and in one call; default renderings also one by one newest first}; " +
 			"2 deviations under the default interleaving as one file; default renderings also with raw IPv4/IPv6 link type; 4 snapshot sets (observed conversation around/after a filler of 11120 closed connections, three files) one by one and in one call. "
@@ -345,13 +350,13 @@ func Run(tier string) int {
 			atomic.AddInt64(&clean, 1)
 		}
 		for _, f := range out.findings {
-			rep.Report(mc.Violation{Symptom: f.Symptom, Key: ic.Key(), Msg: f.Msg, Replay: ic})
+			rep.Report(mc.Violation{Symptom: f.Symptom, Key: ic.Key() + out.keyNote, Msg: f.Msg, Replay: ic})
 		}
 		mu.Lock()
 		for _, f := range out.findings {
 			symptoms[f.Symptom]++
 			if dump != nil {
-				fmt.Fprintf(dump, "%s\t%s\t%s\n", f.Symptom, ic.Key(), strings.ReplaceAll(f.Msg, "\n", " "))
+				fmt.Fprintf(dump, "%s\t%s\t%s\n", f.Symptom, ic.Key()+out.keyNote, strings.ReplaceAll(f.Msg, "\n", " "))
 			}
 		}
 		outcomes[out.canon]++
